@@ -81,7 +81,16 @@ RelevantFor(Q, clause, op, names, kinds) ==
                     \/ RelBase("C10", clause, op, names, kinds)
                     \/ RelBase("C02", clause, op, names, kinds)
   ELSE RelBase(Q, clause, op, names, kinds)
-Relevant(clause, op, names, kinds) == RelevantFor(P, clause, op, names, kinds)
+\* a situation the model itself declares outside the engine's rules (fault) is always reported: the harness matches it with
+\* the known-findings file
+Relevant(clause, op, names, kinds) == clause = "model-fault" \/ RelevantFor(P, clause, op, names, kinds)
+AllRuleNames == UNION {RulesOf(q) : q \in {"C01", "C02", "C03", "C06", "C07", "C10", "C12", "C13", "C14"}}
+WantedRules == IF P = "ALL" THEN AllRuleNames
+               ELSE IF P = "C11" THEN RulesOf("C02") \cup RulesOf("C03") \cup RulesOf("C10")
+               ELSE RulesOf(P)
+\* a show made outside a showdown (before the first deal, or while chips are pushed and pulled) is the named deviation
+\* NonStandardShow: it is kept in the hand's log under its own kind so that the rules about order and bounds pass over it
+TagLog(St, ev) == IF ev.op = "show_or_muck_hole_cards" /\ St.street = 0 THEN [j \in DOMAIN ev.post.log |-> [ev.post.log[j] EXCEPT !.k = "SMX"]] ELSE ev.post.log
 
 (***************************************************************************)
 (* Which configuration the model is instantiated with.  "impl": the one    *)
@@ -113,6 +122,13 @@ RulesOK(t, k, op, C, St) ==
       ctx == IF Live(St) = 0 THEN {"ctx:nobody-live"} ELSE {}
   IN bad = {} \/ Report(t, k, "rule", op, bad \cup ctx, Kinds(St.log), <<>>)
 
+\* rules over the history of the hand (fl: the whole log up to and including this state)
+HistOK(t, k, op, C, St, fl) ==
+  LET bad == BrokenHistoryRules(C, St, fl, WantedRules)
+      ctx == (IF Live(St) = 0 THEN {"ctx:nobody-live"} ELSE {})
+             \cup (IF "C13_opener" \in bad /\ C.n = 2 /\ C.blinds[1] = C.blinds[2] /\ St.street = 1 THEN {"ctx:heads-up-equal-blinds"} ELSE {})
+  IN bad = {} \/ Report(t, k, "rule", op, bad \cup ctx, Kinds(St.log), <<>>)
+
 MicroOK(t, k, op, C, ev) ==
   \A j \in DOMAIN ev.micro :
      LET bad == BrokenMicroRules(C, ev.micro[j]) IN bad = {} \/ Report(t, k, "microrule", op, bad, {ev.micro[j].op.k}, <<j, ev.micro[j]>>)
@@ -130,8 +146,9 @@ ProbesOK(t, k, C, St, ev) ==
 
 IsOther(out) == out \notin {"ok", "ValueError", "UserWarning"}
 
-\* the model's view of one recorded step
-StepOK(t, k, C, St, ev) ==
+\* the model's view of one recorded step; fl is the log of the hand before the step (history rules are evaluated only when
+\* useHist: the twin and copy specifications do not carry the whole log)
+StepOK(t, k, C, St, ev, fl, useHist) ==
   /\ ProbesOK(t, k, C, St, ev)
   /\ IF ev.op = "none" THEN TRUE
      ELSE LET mo == Outcome(C, St, ev.op, ev.a) IN
@@ -145,7 +162,8 @@ StepOK(t, k, C, St, ev) ==
                         \/ Report(t, k, "post", ev.op, DiffFields(Core(m), Core(ev.post)), kinds, <<ev.a, Diff(Core(m), Core(ev.post))>>)
                   /\ ObsOK(t, k, ev.op, C, ev.post)
                   /\ RulesOK(t, k, ev.op, C, ev.post)
-                  /\ LET bad == BrokenStepRules(C, St, ev.op, ev.a, ev.post) IN
+                  /\ (~useHist \/ HistOK(t, k, ev.op, C, ev.post, fl \o TagLog(St, ev)))
+                  /\ LET bad == BrokenStepRules(C, St, ev.op, ev.a, ev.post, IF useHist THEN fl ELSE <<>>) \ (IF useHist THEN {} ELSE {"C07_order"}) IN
                         bad = {} \/ Report(t, k, "steprule", ev.op, bad, kinds, <<ev.a>>)
                   /\ MicroOK(t, k, ev.op, C, ev)
              ELSE IF ev.out = "ok" THEN RulesOK(t, k, ev.op, C, ev.post) /\ MicroOK(t, k, ev.op, C, ev)
@@ -174,6 +192,7 @@ CreateOK(t, H) ==
                        Diff(Core(m), Core(H.create.post)))
        /\ ObsOK(t, 0, "create", CfgOf(H), H.create.post)
        /\ RulesOK(t, 0, "create", CfgOf(H), H.create.post)
+       /\ HistOK(t, 0, "create", CfgOf(H), H.create.post, H.create.post.log)
        /\ MicroOK(t, 0, "create", CfgOf(H), H.create)
   ELSE Report(t, 0, "create-raised", "create", {}, {}, H.create.out)
 =============================================================================
